@@ -199,3 +199,115 @@ theorem bipOfNx_bipToNx {G : BipG} (h : BipG.Inv G) :
       exact ⟨((p.1 : Int), (p.2 : Int)), List.mem_map.2 ⟨p, h.mem_edges.2 hp, rfl⟩, by simp⟩
 
 end Cnfgen.GraphFmt
+
+namespace Cnfgen.GraphFmt
+open Cnfgen Cnfgen.GraphLex
+
+/-! ### dot: all-digit node names are turned into integers before the relabelling -/
+
+theorem natStrAux_append (f n : Nat) (acc : Str) : natStrAux f n acc = natStrAux f n [] ++ acc := by
+  induction f generalizing n acc with
+  | zero => rfl
+  | succ f ih =>
+    simp only [natStrAux]
+    split
+    · rfl
+    · rw [ih (n / 10) (digitChar (n % 10) :: acc), ih (n / 10) [digitChar (n % 10)]]
+      simp
+
+theorem natStrAux_fuel (f f' n : Nat) (h : n < f) (h' : n < f') : natStrAux f n [] = natStrAux f' n [] := by
+  induction f generalizing f' n with
+  | zero => omega
+  | succ f ih =>
+    cases f' with
+    | zero => omega
+    | succ f' =>
+      simp only [natStrAux]
+      split
+      · rfl
+      · rw [natStrAux_append f, natStrAux_append f', ih f' (n / 10) (by omega) (by omega)]
+
+theorem natStr_lt10 {n : Nat} (h : n < 10) : natStr n = [digitChar n] := by
+  simp [natStr, natStrAux, h]
+
+theorem natStr_ge10 {n : Nat} (h : 10 ≤ n) : natStr n = natStr (n / 10) ++ [digitChar (n % 10)] := by
+  have hn : ¬ n < 10 := by omega
+  have h1 : natStr n = natStrAux n (n / 10) [digitChar (n % 10)] := by
+    simp only [natStr, natStrAux, hn, if_false]
+  rw [h1, natStrAux_append, natStrAux_fuel n (n / 10 + 1) (n / 10) (by omega) (by omega)]
+  rfl
+
+theorem digitChar_spec : ∀ d, d < 10 → (digitChar d).toNat - 48 = d ∧ (digit? (digitChar d)).isSome = true := by
+  decide
+
+theorem digitsVal_append (s : Str) (c : Char) : digitsVal (s ++ [c]) = digitsVal s * 10 + (c.toNat - 48) := by
+  simp [digitsVal, List.foldl_append]
+
+/-- `int(str(n)) == n` -/
+theorem digitsVal_natStr (n : Nat) : digitsVal (natStr n) = n := by
+  induction n using Nat.strongRecOn with
+  | _ n ih =>
+    by_cases h : n < 10
+    · rw [natStr_lt10 h]
+      simp [digitsVal, (digitChar_spec n h).1]
+    · rw [natStr_ge10 (by omega), digitsVal_append, ih (n / 10) (by omega), (digitChar_spec (n % 10) (by omega)).1]
+      omega
+
+/-- `str(n).isdigit()` -/
+theorem isDigitStr_natStr (n : Nat) : isDigitStr (natStr n) = true := by
+  have hall : ∀ n, (natStr n).all (fun c => (digit? c).isSome) = true ∧ (natStr n) ≠ [] := by
+    intro n
+    induction n using Nat.strongRecOn with
+    | _ n ih =>
+      by_cases h : n < 10
+      · rw [natStr_lt10 h]; simp [(digitChar_spec n h).2]
+      · rw [natStr_ge10 (by omega)]
+        have := ih (n / 10) (by omega)
+        simp [this.1, (digitChar_spec (n % 10) (by omega)).2]
+  have := hall n
+  simp only [isDigitStr, Bool.and_eq_true, Bool.not_eq_true', this.1, and_true]
+  cases hs : natStr n with
+  | nil => exact absurd hs this.2
+  | cons c cs => rfl
+
+theorem dedupAux_nodup {α} [BEq α] [LawfulBEq α] (seen l : List α) (hn : l.Nodup) (hd : ∀ x ∈ l, x ∉ seen) :
+    dedupAux seen l = l := by
+  induction l generalizing seen with
+  | nil => rfl
+  | cons x xs ih =>
+    have hx : seen.contains x = false := by
+      rw [Bool.eq_false_iff, ne_eq, List.contains_iff_mem]; exact hd x (List.mem_cons_self ..)
+    have hnx := List.nodup_cons.1 hn
+    simp only [dedupAux, hx, Bool.false_eq_true, if_false]
+    rw [ih (x :: seen) hnx.2 (fun y hy => by
+      simp only [List.mem_cons, not_or]
+      exact ⟨fun h => hnx.1 (h ▸ hy), hd y (List.mem_cons_of_mem _ hy)⟩)]
+
+/-- T-C14.4c: with the digit-string → int conversion of the dot branch, the names `"1", …, "n"`
+pydot returns for a written graph are renumbered by the identity, for EVERY `n` -/
+theorem relabelDot_decLabels (n : Nat) (edges : List (Nat × Nat))
+    (h : ∀ e ∈ edges, (1 ≤ e.1 ∧ e.1 ≤ n) ∧ 1 ≤ e.2 ∧ e.2 ≤ n) :
+    relabelDot (decLabels n) (edges.map (fun e => (natStr e.1, natStr e.2))) = (n, edges) := by
+  have hall : (decLabels n).all isDigitStr = true := by
+    simp only [decLabels, List.all_eq_true, List.mem_map]
+    rintro s ⟨i, _, rfl⟩
+    exact isDigitStr_natStr _
+  have hnodes : (decLabels n).map (fun u => (digitsVal u : Int)) = consecutive 1 n := by
+    simp only [decLabels, consecutive, List.map_map]
+    apply List.map_congr_left
+    intro i _
+    simp only [Function.comp, digitsVal_natStr]
+    omega
+  have hnd : (consecutive 1 n).Nodup :=
+    List.nodup_iff_pairwise_ne.2 ((consecutive_sorted 1 n).imp (fun hab => Int.ne_of_lt hab))
+  have hedges : (edges.map (fun e => (natStr e.1, natStr e.2))).map
+      (fun e => ((digitsVal e.1 : Int), (digitsVal e.2 : Int))) = edges.map (fun e => ((e.1 : Int), (e.2 : Int))) := by
+    rw [List.map_map]
+    apply List.map_congr_left
+    intro e _
+    simp only [Function.comp, digitsVal_natStr]
+  unfold relabelDot
+  rw [hall, if_pos rfl, hnodes, hedges, dedup, dedupAux_nodup [] _ hnd (by simp)]
+  exact relabelInts_id n edges h
+
+end Cnfgen.GraphFmt
